@@ -334,8 +334,10 @@ def run_check(prop, tier, oracle, rule, assumptions, extra=None, extra_gen=()):
         if f["signature"] in seen:
             continue
         seen.add(f["signature"])
-        res.add_violation("oracle-" + f["signature"], {"kind": "history", "signature": f["signature"], "driver": "ed run",
-                                                       "case_lines": f.get("case_lines", []), "detail": f.get("detail", "")}, True)
+        res.add_violation("oracle-" + f["signature"], {"kind": "history", "signature": f["signature"],
+                                                       "driver": "capi replay" if f.get("ops") else "ed run",
+                                                       "case_lines": f.get("case_lines", []), "ops": f.get("ops", []),
+                                                       "detail": f.get("detail", "")}, True)
     if info.get("mismatch"):
         st["broken"].append({"obligation": "correspondence editor model vs implementation", **info["mismatch"]})
     if st["broken"]:
